@@ -501,7 +501,8 @@ def synthesize(update_working_block=True, merge_io_vectors=True, block=None):
     block_out = PostSynthBlock()
     # resulting block should only have one of a restricted set of net ops
     block_out.legal_ops = set('~&|^nrwm@')
-    if merge_io_vectors:
+    if merge_io_vectors or block_in.logic_subset('m@'):
+        # memory ports need their address/data re-assembled and disassembled
         block_out.legal_ops.update(set('cs'))
     wirevector_map = {}  # map from (vector,index) -> new_wire
 
